@@ -55,7 +55,10 @@ class SyncSuite(Suite):
         if kind == "mem" and rng.random() < 0.35:
             # a synthetic source whose readers return short reads (io.Reader allows it): 0 = as much as fits
             opt["readsizes"] = [rng.choice([1000, 4096, 10000, 32768, 0]) for _ in range(rng.randint(1, 3))]
-        return {"op": "sync", "src": {"kind": kind, "tree": tree}, "dst": dst, "opt": opt}
+        src = {"kind": kind, "tree": tree}
+        if kind == "mem" and rng.random() < 0.2:
+            src["eof_with_data"] = True      # the source's readers deliver their last bytes together with io.EOF
+        return {"op": "sync", "src": src, "dst": dst, "opt": opt}
 
     def gen_unpriv(self, rng):
         """unprivileged receiver (uid/gid 1000, chroot'ed child): synthetic source, a receive filter that maps every owner to the receiver's
@@ -307,8 +310,39 @@ class SendFilter(SyncSuite):
     rule = ("sources with hard-link groups spread over included and excluded paths x include/exclude lists from the pattern fragment; (30% with a second filter stacked on top); real Send over "
             "NewFilterFS(view) + Receive; STAT log vs filterWalk + hard-link reset model; destination = filtered view; non-trivial = filter non-empty, distinct")
 
+    def gen_skip_family(self, rng):
+        """nested stack: the inner filter selects entries deep below directories it does not select itself (they are reported lazily, as
+        ancestors); the outer filter excludes one of those ancestors wholesale (it answers "skip this directory" when the inner filter
+        hands the ancestor over). Several pending directories lie below the skipped one, matched directories and files follow."""
+        D = lambda p: {"p": hx(p), "t": "dir", "uid": 0, "gid": 0, "mt": gen.MTIMES[0], "mode": 0o755}
+        Fl = lambda p: {"p": hx(p), "t": "file", "size": rng.choice([0, 5, 100]), "uid": 0, "gid": 0, "mt": gen.MTIMES[1], "mode": 0o644}
+        top, a, b = rng.sample([b"p", b"q", b"r", b"s"], 1)[0], rng.choice([b"a", b"a-b"]), rng.choice([b"b", b"k"])
+        base = top + b"/" + a + b"/" + b
+        tree = [D(top), D(top + b"/" + a), D(base)]
+        leaves = []
+        for n in sorted(rng.sample([b"c", b"d", b"e", b"f", b"g"], rng.randint(2, 4))):
+            if rng.random() < 0.5:
+                tree += [D(base + b"/" + n), Fl(base + b"/" + n + b"/f")]
+            else:
+                tree.append(Fl(base + b"/" + n))
+            leaves.append(base + b"/" + n)
+        tree += [D(top + b"/x"), Fl(top + b"/x/y")]
+        regs = [e for e in tree if e["t"] == "file"]
+        if len(regs) >= 2 and rng.random() < 0.6:
+            tree.append({"p": hx(top + b"/x/z"), "t": "hardlink", "ln": rng.choice(regs)["p"]})
+        tree.sort(key=lambda e: gen.pathkey(bytes.fromhex(e["p"])))
+        sf = {"include": [hx(x) for x in leaves + [top + b"/x"]]}
+        sf2 = {"exclude": [hx(rng.choice([top + b"/" + a, base]))]}
+        if rng.random() < 0.3:
+            top_only = True
+            sf2 = {"exclude": [hx(top + b"/" + a + b"/*")]}
+        return {"op": "sync", "src": {"kind": "mem" if rng.random() < 0.7 else "disk", "tree": tree}, "dst": [], "sfilter": sf, "sfilter2": sf2,
+                "opt": {"notify": True, "cap": rng.choice([0, 4, 32]), "seed": rng.randrange(1 << 30)}}
+
     def gen_case(self, rng):
         from . import filt
+        if type(self) is SendFilter and rng.random() < 0.06:
+            return self.gen_skip_family(rng)
         while True:
             tree = gen.disk_tree(rng, rng.choice([8, 20, 40]), 4, types=("dir", "file", "file", "hardlink", "hardlink", "symlink", "fifo"),
                                  file_sizes=(0, 5, 100, 40000), xattrs=False)
@@ -400,8 +434,8 @@ class SchedSuite(SyncSuite):
 
     def gen(self, rng, tier):
         ops = []
-        for _ in range(self.n_cases[tier]):
-            wide = rng.random() < 0.04
+        for k in range(self.n_cases[tier]):
+            wide = k % 40 == 3 or rng.random() < 0.02
             if wide:
                 # hundreds of multi-chunk files in flight at once (more than any internal queue or worker limit holds)
                 from .proto import flat_view
@@ -420,6 +454,9 @@ class SchedSuite(SyncSuite):
             if rng.random() < 0.6:
                 # a progress callback that keeps plain (unsynchronised) state: its calls must be serialised by the sender
                 opt["progress"] = True
+            if wide and rng.random() < 0.7:
+                # a slow content-hasher callback for the first file: its request reaches the sender after ~300 later ones
+                opt["hold_hasher"] = 300
             ops.append({"op": "sync", "src": {"kind": "mem", "tree": tree}, "dst": dst, "opt": opt, "schedules": scheds})
         return ops
 
